@@ -40,6 +40,15 @@ std::mutex& TimeZoneMutex() {
   return *time_zone_mutex;
 }
 
+// Serializes the loading of new time zones, so that a user-supplied
+// cctz_extension::zone_info_source_factory is called only once for any
+// zone name and never concurrently (see zone_info_source.h). It is
+// recursive so that a factory may itself call load_time_zone().
+std::recursive_mutex& TimeZoneLoadMutex() {
+  static std::recursive_mutex* load_mutex = new std::recursive_mutex;
+  return *load_mutex;
+}
+
 }  // namespace
 
 time_zone time_zone::Impl::UTC() {
@@ -68,7 +77,20 @@ bool time_zone::Impl::LoadTimeZone(const std::string& name, time_zone* tz) {
     }
   }
 
-  // Load the new time zone (outside the lock).
+  // Load the new time zone (outside the map lock, so that lookups of
+  // already-loaded zones never wait for I/O), one zone at a time.
+  std::lock_guard<std::recursive_mutex> load_lock(TimeZoneLoadMutex());
+  {
+    // Another thread may have loaded this zone while we were waiting.
+    std::lock_guard<std::mutex> lock(TimeZoneMutex());
+    if (time_zone_map != nullptr) {
+      TimeZoneImplByName::const_iterator itr = time_zone_map->find(name);
+      if (itr != time_zone_map->end()) {
+        *tz = time_zone(itr->second);
+        return itr->second != utc_impl;
+      }
+    }
+  }
   std::unique_ptr<const Impl> new_impl(new Impl(name));
 
   // Add the new time zone to the map.
